@@ -1296,7 +1296,7 @@ class Circshift(Linop):
     def __init__(self, shape, shift, axes=None):
         self.axes = axes
         self.shift = shift
-        self.ishift = [-s for s in self.shift]
+        self.ishift = [-int(s) for s in self.shift]
 
         super().__init__(shape, shape)
 
@@ -1306,7 +1306,9 @@ class Circshift(Linop):
             return util.circshift(input, self.shift, self.axes)
 
     def _adjoint_linop(self):
-        return Circshift(self.ishape, [-s for s in self.shift], axes=self.axes)
+        return Circshift(
+            self.ishape, [-int(s) for s in self.shift], axes=self.axes
+        )
 
     def _normal_linop(self):
         return Identity(self.ishape)
